@@ -406,3 +406,601 @@ Section Dedup.
           -- exists p. split; [now right|assumption].
   Qed.
 End Dedup.
+
+(** * The loops are merge ; dedup ; cut into blocks *)
+
+Lemma pick_min_from_nth lt runs : forall i best j r,
+  pick_min_from lt i runs best = Some (j, r) ->
+  best = Some (j, r) \/ exists tl, i <= j /\ nth_error runs (j - i) = Some (r :: tl).
+Proof.
+  induction runs as [|run runs IH]; intros i best j r Hp; cbn in Hp; [now left|].
+  assert (Hshift : forall tl, S i <= j -> nth_error runs (j - S i) = Some (r :: tl) ->
+                              i <= j /\ nth_error (run :: runs) (j - i) = Some (r :: tl)).
+  { intros tl Hle Hn. split; [lia|]. replace (j - i) with (S (j - S i)) by lia. exact Hn. }
+  destruct run as [|x run].
+  - destruct (IH _ _ _ _ Hp) as [H|(tl & Hle & Hn)]; [now left|right; exists tl; auto].
+  - assert (Hx : pick_min_from lt (S i) runs (Some (i, x)) = Some (j, r) ->
+                 exists tl, i <= j /\ nth_error ((x :: run) :: runs) (j - i) = Some (r :: tl)).
+    { intros Hq. destruct (IH _ _ _ _ Hq) as [H|(tl & Hle & Hn)].
+      - inversion H; subst. exists run. split; [lia|]. now rewrite Nat.sub_diag.
+      - exists tl; auto. }
+    destruct best as [[j0 m]|].
+    + destruct (lt x m).
+      * right. auto.
+      * destruct (IH _ _ _ _ Hp) as [H|(tl & Hle & Hn)]; [now left|right; exists tl; auto].
+    + right. auto.
+Qed.
+
+Lemma pick_min_nth lt runs i r :
+  pick_min lt runs = Some (i, r) -> exists tl, nth_error runs i = Some (r :: tl).
+Proof.
+  intros Hp. destruct (pick_min_from_nth lt runs 0 None i r Hp) as [H|(tl & _ & Hn)]; [discriminate|].
+  rewrite Nat.sub_0_r in Hn. eauto.
+Qed.
+
+Section LoopEq.
+  Variable ncols : nat.
+  Variable pk rem : list nat.
+  Notation K := (dkey ncols pk).
+  Notation f := (remove_cols rem).
+
+  Fixpoint blocks_from (off : nat) (blk : list row) (blkPK : key) (l : list row) : list sblock :=
+    match l with
+    | [] => match blk with [] => [] | _ => [mk_sblock off blk blkPK] end
+    | r :: l' =>
+        let blk' := blk ++ [f r] in
+        let blkPK' := if Nat.eqb (length blk) 0 then K r else blkPK in
+        if Nat.eqb (length blk') block_size then mk_sblock off blk' blkPK' :: blocks_from (S off) [] [] l'
+        else blocks_from off blk' blkPK' l'
+    end.
+
+  Fixpoint rows_from (off : nat) (rows : list row) (l : list row) : list srows :=
+    match l with
+    | [] => match rows with [] => [] | _ => [mk_srows off rows] end
+    | r :: l' =>
+        let rows' := rows ++ [f r] in
+        if Nat.eqb (length rows') block_size then mk_srows off rows' :: rows_from (S off) [] l'
+        else rows_from off rows' l'
+    end.
+
+  Lemma sb_loop_eq fuel : forall runs blk blkPK prev first off,
+    length blk < block_size -> total_rows runs < fuel ->
+    sb_loop ncols pk rem fuel runs blk blkPK prev first off =
+    Some (blocks_from off blk blkPK (dedup K prev first (merge_seq (strlist_less_than pk) fuel runs))).
+  Proof.
+    induction fuel as [|fuel IH]; intros runs blk blkPK prev first off Hblk Hf; [lia|].
+    cbn [sb_loop merge_seq].
+    destruct (pick_min (strlist_less_than pk) runs) as [[i r]|] eqn:Ep.
+    - destruct (pick_min_nth _ _ _ _ Ep) as (tl & Hn).
+      assert (Hf' : total_rows (pop_run i runs) < fuel).
+      { rewrite (pop_run_total _ _ _ _ Hn) in Hf. lia. }
+      cbn [dedup]. fold (K r).
+      destruct (pk_is_different (K r) prev first) as [[ok prev'] first'].
+      destruct ok; cbn [andb].
+      + cbn [blocks_from].
+        destruct (Nat.eqb (length (blk ++ [f r])) block_size) eqn:E.
+        * rewrite IH; auto. unfold block_size; cbn; lia.
+        * apply IH; auto. apply Nat.eqb_neq in E. rewrite app_length in *. cbn in *.
+          unfold block_size in *. lia.
+      + assert (E : Nat.eqb (length blk) block_size = false) by (apply Nat.eqb_neq; lia).
+        rewrite E. apply IH; auto.
+    - reflexivity.
+  Qed.
+
+  Lemma sr_loop_eq fuel : forall runs rows prev first off,
+    length rows < block_size -> total_rows runs < fuel ->
+    sr_loop ncols pk rem fuel runs rows prev first off =
+    Some (rows_from off rows (dedup K prev first (merge_seq (string_slice_is_less pk) fuel runs))).
+  Proof.
+    induction fuel as [|fuel IH]; intros runs rows prev first off Hblk Hf; [lia|].
+    cbn [sr_loop merge_seq].
+    destruct (pick_min (string_slice_is_less pk) runs) as [[i r]|] eqn:Ep.
+    - destruct (pick_min_nth _ _ _ _ Ep) as (tl & Hn).
+      assert (Hf' : total_rows (pop_run i runs) < fuel).
+      { rewrite (pop_run_total _ _ _ _ Hn) in Hf. lia. }
+      cbn [dedup]. fold (K r).
+      destruct (pk_is_different (K r) prev first) as [[ok prev'] first'].
+      destruct ok.
+      + cbn [rows_from].
+        destruct (Nat.eqb (length (rows ++ [f r])) block_size) eqn:E.
+        * rewrite IH; auto. unfold block_size; cbn; lia.
+        * apply IH; auto. apply Nat.eqb_neq in E. rewrite app_length in *. cbn in *.
+          unfold block_size in *. lia.
+      + assert (E : Nat.eqb (length rows) block_size = false) by (apply Nat.eqb_neq; lia).
+        rewrite E. apply IH; auto.
+    - reflexivity.
+  Qed.
+
+  Lemma rows_from_blocks_from l : forall off blk blkPK,
+    rows_from off blk l = map (fun b => mk_srows (b_offset b) (b_rows b)) (blocks_from off blk blkPK l).
+  Proof.
+    induction l as [|r l IH]; intros off blk blkPK; cbn.
+    - destruct blk; reflexivity.
+    - destruct (Nat.eqb (length (blk ++ [f r])) block_size); cbn; [f_equal|]; apply IH.
+  Qed.
+
+  Lemma blocks_from_chunked l : forall off pre blkPK,
+    length pre < block_size -> (pre <> [] -> blkPK = K (hd [] pre)) ->
+    chunked ncols pk rem off (pre ++ l) (blocks_from off (map f pre) blkPK l).
+  Proof.
+    induction l as [|r l IH]; intros off pre blkPK Hlen Hpk.
+    - rewrite app_nil_r. cbn. destruct pre as [|p pre]; cbn [map].
+      + constructor.
+      + rewrite Hpk by discriminate. apply ch_last; [discriminate|]. apply Nat.lt_le_incl. exact Hlen.
+    - cbn [blocks_from].
+      assert (Emap : map f pre ++ [f r] = map f (pre ++ [r])) by (now rewrite map_app).
+      assert (EK : (if Nat.eqb (length (map f pre)) 0 then K r else blkPK) = K (hd [] (pre ++ [r]))).
+      { destruct pre as [|p pre]; cbn; [reflexivity|]. apply Hpk. discriminate. }
+      rewrite Emap, EK.
+      replace (pre ++ r :: l) with ((pre ++ [r]) ++ l) by (now rewrite <- app_assoc).
+      destruct (Nat.eqb (length (map f (pre ++ [r]))) block_size) eqn:E.
+      + apply Nat.eqb_eq in E. rewrite map_length in E.
+        destruct l as [|r2 l].
+        * cbn. rewrite app_nil_r. apply ch_last.
+          -- destruct pre; discriminate.
+          -- apply Nat.eq_le_incl. exact E.
+        * apply ch_full; auto; [discriminate|].
+          apply (IH (S off) [] []); [cbn; unfold block_size; lia|]. intros H; contradiction.
+      + apply Nat.eqb_neq in E. rewrite map_length in E. apply IH.
+        * unfold row in *. rewrite app_length in *. cbn [length] in *. unfold block_size in *. lia.
+        * intros _. reflexivity.
+  Qed.
+
+  Lemma chunked_concat off l bs :
+    chunked ncols pk rem off l bs -> concat (map b_rows bs) = map f l.
+  Proof.
+    induction 1; cbn.
+    - reflexivity.
+    - now rewrite app_nil_r.
+    - rewrite IHchunked. now rewrite map_app.
+  Qed.
+End LoopEq.
+
+(** * Key columns survive the removal of other columns *)
+
+Lemma nth_remove_from rem (r : row) : forall i u,
+  existsb (Nat.eqb (i + u)) rem = false ->
+  nth (length (filter (fun j => negb (existsb (Nat.eqb j) rem)) (seq i u))) (remove_from i rem r) []
+  = nth u r [].
+Proof.
+  induction r as [|c r IH]; intros i u Hu.
+  - cbn. destruct u; destruct (length _); reflexivity.
+  - destruct u as [|u].
+    + cbn. rewrite Nat.add_0_r in Hu. rewrite Hu. reflexivity.
+    + cbn [seq filter remove_from].
+      replace (i + S u) with (S i + u) in Hu by lia.
+      destruct (existsb (Nat.eqb i) rem) eqn:Ei; cbn [negb].
+      * rewrite (IH (S i) u Hu). reflexivity.
+      * cbn [length nth]. rewrite (IH (S i) u Hu). reflexivity.
+Qed.
+
+Lemma key_of_removed rem idx (r : row) :
+  (forall u, In u idx -> ~ In u rem) ->
+  key_of (map (shift_idx rem) idx) (remove_cols rem r) = key_of idx r.
+Proof.
+  intros H. unfold key_of. rewrite map_map. apply map_ext_in. intros u Hu.
+  unfold shift_idx, remove_cols. apply (nth_remove_from rem r 0 u). cbn.
+  destruct (existsb (Nat.eqb u) rem) eqn:E; auto.
+  apply existsb_exists in E as (x & Hx & Ex). apply Nat.eqb_eq in Ex. subst.
+  exfalso. eapply H; eauto.
+Qed.
+
+(** * AddRow: totality, partition into runs *)
+
+Lemma cell_too_long_false r :
+  Forall (fun c => (blen c <= max_str_len)%N) r -> cell_too_long r = false.
+Proof.
+  intros H. unfold cell_too_long. destruct (existsb _ r) eqn:E; auto.
+  apply existsb_exists in E as (c & Hc & Ec). rewrite Forall_forall in H.
+  specialize (H c Hc). apply N.ltb_lt in Ec. lia.
+Qed.
+
+Lemma cell_too_long_true r :
+  Exists (fun c => (max_str_len < blen c)%N) r -> cell_too_long r = true.
+Proof.
+  intros H. unfold cell_too_long. apply existsb_exists. apply Exists_exists in H as (c & Hc & Ec).
+  exists c. split; auto. now apply N.ltb_lt.
+Qed.
+
+Section AddRows.
+  Variable sort_rows : list nat -> list row -> list row.
+  Variable run_size : N.
+  Variable pk : list nat.
+  Notation add_row := (add_row sort_rows run_size pk).
+  Notation add_rows := (add_rows sort_rows run_size pk).
+
+  Definition parts_inv (rows : list row) (s : sorter) : Prop :=
+    exists parts, concat parts ++ s_current s = rows /\ s_chunks s = map (sort_rows pk) parts.
+
+  Lemma add_row_parts rows s r s' :
+    parts_inv rows s -> add_row s r = Some s' -> parts_inv (rows ++ [r]) s'.
+  Proof.
+    intros (parts & Hc & Hm) H. unfold Sorter.add_row in H.
+    destruct (cell_too_long r); [discriminate|].
+    destruct (run_size <=? s_size s + row_size r)%N; inversion H; subst; clear H; cbn.
+    - exists (parts ++ [s_current s ++ [r]]). split.
+      + rewrite concat_app. cbn [concat]. rewrite !app_nil_r. repeat rewrite <- app_assoc. reflexivity.
+      + rewrite map_app, Hm. reflexivity.
+    - exists parts. split; auto. repeat rewrite <- app_assoc. reflexivity.
+  Qed.
+
+  Lemma add_rows_parts rows : forall rows0 s s',
+    parts_inv rows0 s -> add_rows s rows = Some s' -> parts_inv (rows0 ++ rows) s'.
+  Proof.
+    induction rows as [|r rows IH]; intros rows0 s s' Hi H; cbn in H.
+    - inversion H; subst. now rewrite app_nil_r.
+    - destruct (add_row s r) as [s1|] eqn:E; [|discriminate].
+      replace (rows0 ++ r :: rows) with ((rows0 ++ [r]) ++ rows) by (now rewrite <- app_assoc).
+      eapply IH; eauto. eapply add_row_parts; eauto.
+  Qed.
+
+  Lemma add_rows_total rows : forall s,
+    cells_in_limit rows -> exists s', add_rows s rows = Some s'.
+  Proof.
+    induction rows as [|r rows IH]; intros s Hc; cbn; [eauto|].
+    inversion Hc; subst. unfold Sorter.add_row. rewrite cell_too_long_false by assumption.
+    destruct (run_size <=? s_size s + row_size r)%N; apply IH; auto.
+  Qed.
+
+  Lemma add_rows_refused rows : forall s,
+    Exists (fun r => Exists (fun c => (max_str_len < blen c)%N) r) rows -> add_rows s rows = None.
+  Proof.
+    induction rows as [|r rows IH]; intros s H; [inversion H|]. cbn.
+    destruct (add_row s r) as [s1|] eqn:E; [|reflexivity].
+    inversion H; subst.
+    - unfold Sorter.add_row in E. rewrite cell_too_long_true in E by assumption. discriminate.
+    - apply IH; auto.
+  Qed.
+
+  (** the runs the merge reads are the sorted images of a partition of the input *)
+  Lemma add_rows_partition rows s :
+    add_rows new_sorter rows = Some s ->
+    exists parts, concat parts = rows /\ runs_of sort_rows pk s = map (sort_rows pk) parts.
+  Proof.
+    intros H. destruct (add_rows_parts rows [] new_sorter s) as (parts & Hc & Hm); auto.
+    - exists []. split; reflexivity.
+    - cbn in Hc. exists (parts ++ [s_current s]). split.
+      + rewrite concat_app. cbn. now rewrite app_nil_r.
+      + unfold runs_of. rewrite map_app, Hm. reflexivity.
+  Qed.
+End AddRows.
+
+Lemma wf_rows_concat ncols (parts : list (list row)) :
+  wf_rows ncols (concat parts) -> Forall (wf_rows ncols) parts.
+Proof.
+  induction parts as [|p parts IH]; cbn; intros H; [constructor|].
+  apply Forall_app in H as [H1 H2]. constructor; auto.
+Qed.
+
+Lemma sorted_parts ncols sort_rows pk parts :
+  sort_ok ncols sort_rows -> wf_pk ncols pk -> Forall (wf_rows ncols) parts ->
+  Permutation (concat (map (sort_rows pk) parts)) (concat parts) /\
+  Forall (run_sorted pk) (map (sort_rows pk) parts).
+Proof.
+  intros Hs Hpk. induction 1 as [|p parts Hp _ IH]; cbn; [split; constructor|].
+  destruct IH as [IH1 IH2]. destruct (Hs pk p Hpk Hp) as [S1 S2]. split.
+  - now apply Permutation_app.
+  - constructor; auto.
+Qed.
+
+(** * Chunk-file cleanup *)
+
+Lemma remove_first_head x l : remove_first x (x :: l) = Some l.
+Proof. cbn. now rewrite Nat.eqb_refl. Qed.
+
+Lemma run_cleanups_self cl : run_cleanups cl cl = Some [].
+Proof. induction cl as [|x cl IH]; cbn; [reflexivity|]. now rewrite Nat.eqb_refl. Qed.
+
+Lemma run_cleanups_ignore_self cl : run_cleanups_ignore cl cl = [].
+Proof. induction cl as [|x cl IH]; cbn; [reflexivity|]. now rewrite Nat.eqb_refl. Qed.
+
+Lemma run_cleanups_ignore_nil cl : run_cleanups_ignore cl [] = [].
+Proof. induction cl as [|x cl IH]; cbn; auto. Qed.
+
+Lemma run_cleanups_nil cl l : run_cleanups cl [] = Some l -> l = [].
+Proof. destruct cl; cbn; congruence. Qed.
+
+(** invariant: before Close the live files are exactly the pending cleanups; after Close none *)
+Definition cleanup_inv (closed : bool) (s : sorter) : Prop :=
+  if closed then s_live s = [] else s_live s = s_cleanups s.
+
+(** what the property demands of a history's trace *)
+Fixpoint trace_clean (closed : bool) (ops : list sop) (tr : list (bool * nat)) : Prop :=
+  match ops, tr with
+  | [], [] => True
+  | o :: ops', (ok, live) :: tr' =>
+      match o with
+      | OpAdd _ => trace_clean closed ops' tr'
+      | OpReset => ok = true /\ live = 0 /\ trace_clean false ops' tr'
+      | OpClose => (closed = false -> ok = true) /\ live = 0 /\ trace_clean true ops' tr'
+      end
+  | _, _ => False
+  end.
+
+Lemma cleanup_trace sort_rows run_size pk ops : forall closed s,
+  cleanup_inv closed s -> well_used closed ops ->
+  trace_clean closed ops (sop_trace sort_rows run_size pk s ops).
+Proof.
+  induction ops as [|o ops IH]; intros closed s Hi Hw; cbn; [exact I|].
+  destruct o as [r| |]; cbn in Hw |- *.
+  - destruct Hw as [-> Hw]. cbn in Hi.
+    destruct (add_row sort_rows run_size pk s r) as [s'|] eqn:E; cbn.
+    + apply IH; auto. unfold add_row in E. destruct (cell_too_long r); [discriminate|].
+      destruct (run_size <=? s_size s + row_size r)%N; inversion E; subst; cbn; congruence.
+    + apply IH; auto.
+  - assert (Hl : s_live (reset s) = []).
+    { cbn. destruct closed; cbn in Hi; rewrite Hi.
+      - apply run_cleanups_ignore_nil.
+      - apply run_cleanups_ignore_self. }
+    change (length (run_cleanups_ignore (s_cleanups s) (s_live s))) with (length (s_live (reset s))).
+    rewrite Hl. split; [reflexivity|]. split; [reflexivity|]. apply IH; auto.
+  - unfold close. destruct closed; cbn in Hi.
+    + rewrite Hi. destruct (run_cleanups (s_cleanups s) []) as [l|] eqn:E; cbn.
+      * apply run_cleanups_nil in E. subst.
+        split; [discriminate|]. split; [reflexivity|]. apply IH; [reflexivity|assumption].
+      * rewrite Hi. split; [discriminate|]. split; [reflexivity|]. apply IH; [exact Hi|assumption].
+    + rewrite Hi, run_cleanups_self. cbn.
+      split; [reflexivity|]. split; [reflexivity|]. apply IH; [reflexivity|assumption].
+Qed.
+
+(** * Assembly: both outputs are the sorted key-deduplication of the input *)
+
+Lemma Forall_concat_inv {A} (Q : A -> Prop) (ls : list (list A)) :
+  Forall Q (concat ls) -> Forall (Forall Q) ls.
+Proof.
+  induction ls as [|l ls IH]; cbn; intros H; [constructor|].
+  apply Forall_app in H as [H1 H2]. constructor; auto.
+Qed.
+
+Section Assembly.
+  Variable ncols : nat.
+  Variable pk rem : list nat.
+  Notation K := (dkey ncols pk).
+  Definition Pw (r : row) : Prop := length r = ncols.
+
+  Lemma run_sorted_le run : Forall Pw run -> run_sorted pk run -> StronglySorted (le K) run.
+  Proof.
+    intros HP Hs. induction Hs as [|a l Hs IH Ha]; [constructor|].
+    inversion HP as [|? ? HPa HPl]; subst. constructor; auto.
+    rewrite Forall_forall in *. intros b Hb. specialize (Ha b Hb).
+    rewrite (ssl_dkey ncols) in Ha by (auto; apply HPl; auto).
+    unfold le. now apply klt_false_le.
+  Qed.
+
+  Lemma runs_sorted_le runs :
+    Forall (Forall Pw) runs -> Forall (run_sorted pk) runs -> Forall (StronglySorted (le K)) runs.
+  Proof.
+    induction runs as [|run runs IH]; intros HP Hs; [constructor|].
+    inversion HP; inversion Hs; subst. constructor; auto using run_sorted_le.
+  Qed.
+
+  Definition kept_of (runs : list (list row)) : list row :=
+    dedup K (init_prev ncols pk) true (merge_seq (strlist_less_than pk) (S (total_rows runs)) runs).
+
+  Lemma kept_spec runs rows :
+    wf_rows ncols rows -> Permutation (concat runs) rows -> Forall (run_sorted pk) runs ->
+    keys_strictly_ascending ncols pk (kept_of runs) /\
+    (forall r, In r (kept_of runs) -> In r rows) /\
+    (forall r, In r rows -> exists p, In p (kept_of runs) /\ K p = K r).
+  Proof.
+    intros Hwf Hperm Hs.
+    assert (HP : Forall (Forall Pw) runs).
+    { apply Forall_concat_inv. unfold wf_rows in Hwf. rewrite Forall_forall in *.
+      intros r Hr. apply Hwf. eapply Permutation_in; eauto. }
+    assert (Hlt : forall a b, Pw a -> Pw b -> strlist_less_than pk a b = klt (K a) (K b))
+      by (intros; apply sll_dkey; auto).
+    pose proof (runs_sorted_le runs HP Hs) as Hle.
+    assert (Hf : total_rows runs < S (total_rows runs)) by lia.
+    pose proof (merge_seq_sorted K Pw _ Hlt _ runs HP Hle Hf) as Hms.
+    pose proof (merge_seq_perm K Pw _ Hlt _ runs HP Hf) as Hmp.
+    destruct (dedup_true K _ (init_prev ncols pk) Hms) as (D1 & D2 & D3).
+    split; [exact D1|]. split.
+    - intros r Hr. eapply Permutation_in; [exact Hperm|]. eapply Permutation_in; [exact Hmp|].
+      apply D2. exact Hr.
+    - intros r Hr. apply D3. eapply Permutation_in; [symmetry; exact Hmp|].
+      eapply Permutation_in; [symmetry; exact Hperm|]. exact Hr.
+  Qed.
+
+  Lemma sorted_blocks_runs_eq runs :
+    sorted_blocks_runs ncols pk rem runs = Some (blocks_from ncols pk rem 0 [] [] (kept_of runs)).
+  Proof.
+    unfold sorted_blocks_runs, kept_of. apply sb_loop_eq; [cbn; unfold block_size; lia | lia].
+  Qed.
+
+  Lemma sorted_blocks_runs_chunked runs :
+    chunked ncols pk rem 0 (kept_of runs) (blocks_from ncols pk rem 0 [] [] (kept_of runs)).
+  Proof.
+    apply (blocks_from_chunked ncols pk rem (kept_of runs) 0 [] []).
+    - cbn; unfold block_size; lia.
+    - intros H; contradiction.
+  Qed.
+
+  Lemma sorted_rows_runs_eq runs :
+    Forall (Forall Pw) runs ->
+    sorted_rows_runs ncols pk rem runs =
+    Some (map (fun b => mk_srows (b_offset b) (b_rows b)) (blocks_from ncols pk rem 0 [] [] (kept_of runs))).
+  Proof.
+    intros HP. unfold sorted_rows_runs. rewrite sr_loop_eq by (cbn; unfold block_size; lia).
+    f_equal. rewrite (rows_from_blocks_from ncols pk rem _ 0 [] []). unfold kept_of.
+    rewrite (merge_seq_ext Pw (string_slice_is_less pk) (strlist_less_than pk)); auto.
+    intros a b Ha Hb. rewrite (ssl_dkey ncols), (sll_dkey ncols); auto.
+  Qed.
+
+  Lemma sorted_dedup_of_kept runs rows :
+    wf_rows ncols rows -> wf_removed ncols pk rem ->
+    Permutation (concat runs) rows -> Forall (run_sorted pk) runs ->
+    sorted_dedup_of ncols pk rem rows (map (remove_cols rem) (kept_of runs)).
+  Proof.
+    intros Hwf [_ Hrem] Hperm Hs. destruct (kept_spec runs rows Hwf Hperm Hs) as (S1 & S2 & S3).
+    exists (kept_of runs). repeat (split; auto).
+    intros p _. unfold dkey. apply key_of_removed. intros u Hu Hin. eapply Hrem; eauto.
+  Qed.
+End Assembly.
+
+(** the statements used by props/C19.v *)
+
+Theorem blocks_any_runs ncols pk rem rows runs :
+  wf_rows ncols rows -> wf_removed ncols pk rem ->
+  Permutation (concat runs) rows -> Forall (run_sorted pk) runs ->
+  exists bs kept,
+    sorted_blocks_runs ncols pk rem runs = Some bs /\
+    chunked ncols pk rem 0 kept bs /\
+    keys_strictly_ascending ncols pk kept /\
+    (forall r, In r kept -> In r rows) /\
+    (forall r, In r rows -> exists p, In p kept /\ dkey ncols pk p = dkey ncols pk r) /\
+    sorted_dedup_of ncols pk rem rows (concat (map b_rows bs)).
+Proof.
+  intros Hwf Hrem Hperm Hs.
+  exists (blocks_from ncols pk rem 0 [] [] (kept_of ncols pk runs)), (kept_of ncols pk runs).
+  destruct (kept_spec ncols pk runs rows Hwf Hperm Hs) as (S1 & S2 & S3).
+  split; [apply sorted_blocks_runs_eq|]. split; [apply sorted_blocks_runs_chunked|].
+  split; [exact S1|]. split; [exact S2|]. split; [exact S3|].
+  rewrite (chunked_concat _ _ _ _ _ _ (sorted_blocks_runs_chunked ncols pk rem runs)).
+  apply sorted_dedup_of_kept; auto.
+Qed.
+
+Theorem rows_any_runs ncols pk rem rows runs :
+  wf_rows ncols rows -> wf_removed ncols pk rem ->
+  Permutation (concat runs) rows -> Forall (run_sorted pk) runs ->
+  exists rs,
+    sorted_rows_runs ncols pk rem runs = Some rs /\
+    sorted_dedup_of ncols pk rem rows (concat (map r_rows rs)).
+Proof.
+  intros Hwf Hrem Hperm Hs.
+  assert (HP : Forall (Forall (Pw ncols)) runs).
+  { apply Forall_concat_inv. unfold wf_rows in Hwf. rewrite Forall_forall in *.
+    intros r Hr. apply Hwf. eapply Permutation_in; eauto. }
+  eexists. split; [apply sorted_rows_runs_eq; exact HP|].
+  rewrite map_map.
+  match goal with |- sorted_dedup_of _ _ _ _ (concat (map ?g ?l)) =>
+    replace (map g l) with (map b_rows l) by (apply map_ext; reflexivity) end.
+  rewrite (chunked_concat _ _ _ _ _ _ (sorted_blocks_runs_chunked ncols pk rem runs)).
+  apply sorted_dedup_of_kept; auto.
+Qed.
+
+Theorem outputs_agree_runs ncols pk rem runs :
+  wf_rows ncols (concat runs) ->
+  exists bs rs,
+    sorted_blocks_runs ncols pk rem runs = Some bs /\
+    sorted_rows_runs ncols pk rem runs = Some rs /\
+    rs = map (fun b => mk_srows (b_offset b) (b_rows b)) bs.
+Proof.
+  intros Hwf. apply Forall_concat_inv in Hwf.
+  eexists. eexists. split; [apply sorted_blocks_runs_eq|]. split; [apply sorted_rows_runs_eq; exact Hwf|].
+  reflexivity.
+Qed.
+
+(** from the sorter's own state: any run size *)
+Lemma sorter_runs ncols sort_rows run_size pk rows :
+  sort_ok ncols sort_rows -> wf_pk ncols pk -> wf_rows ncols rows -> cells_in_limit rows ->
+  exists s, add_rows sort_rows run_size pk new_sorter rows = Some s /\
+    Permutation (concat (runs_of sort_rows pk s)) rows /\
+    Forall (run_sorted pk) (runs_of sort_rows pk s).
+Proof.
+  intros Hso Hpk Hwf Hc.
+  destruct (add_rows_total sort_rows run_size pk rows new_sorter Hc) as (s & Hs).
+  exists s. split; [exact Hs|].
+  destruct (add_rows_partition sort_rows run_size pk rows s Hs) as (parts & Hcat & Hruns).
+  rewrite Hruns. subst rows.
+  destruct (sorted_parts ncols sort_rows pk parts Hso Hpk (wf_rows_concat _ _ Hwf)) as [P1 P2].
+  split; assumption.
+Qed.
+
+Theorem sorter_blocks ncols sort_rows run_size pk rem rows :
+  sort_ok ncols sort_rows -> wf_pk ncols pk -> wf_rows ncols rows -> cells_in_limit rows ->
+  wf_removed ncols pk rem ->
+  exists s bs, add_rows sort_rows run_size pk new_sorter rows = Some s /\
+    sorted_blocks sort_rows pk ncols rem s = Some bs /\
+    sorted_dedup_of ncols pk rem rows (concat (map b_rows bs)).
+Proof.
+  intros Hso Hpk Hwf Hc Hrem.
+  destruct (sorter_runs ncols sort_rows run_size pk rows Hso Hpk Hwf Hc) as (s & Hs & Hperm & Hsorted).
+  destruct (blocks_any_runs ncols pk rem rows _ Hwf Hrem Hperm Hsorted) as (bs & kept & H1 & _ & _ & _ & _ & H2).
+  exists s, bs. auto.
+Qed.
+
+Theorem sorter_rows ncols sort_rows run_size pk rem rows :
+  sort_ok ncols sort_rows -> wf_pk ncols pk -> wf_rows ncols rows -> cells_in_limit rows ->
+  wf_removed ncols pk rem ->
+  exists s rs, add_rows sort_rows run_size pk new_sorter rows = Some s /\
+    sorted_rows sort_rows pk ncols rem s = Some rs /\
+    sorted_dedup_of ncols pk rem rows (concat (map r_rows rs)).
+Proof.
+  intros Hso Hpk Hwf Hc Hrem.
+  destruct (sorter_runs ncols sort_rows run_size pk rows Hso Hpk Hwf Hc) as (s & Hs & Hperm & Hsorted).
+  destruct (rows_any_runs ncols pk rem rows _ Hwf Hrem Hperm Hsorted) as (rs & H1 & H2).
+  exists s, rs. auto.
+Qed.
+
+Theorem sorter_outputs_agree ncols sort_rows run_size pk rem rows :
+  sort_ok ncols sort_rows -> wf_pk ncols pk -> wf_rows ncols rows -> cells_in_limit rows ->
+  exists s bs rs, add_rows sort_rows run_size pk new_sorter rows = Some s /\
+    sorted_blocks sort_rows pk ncols rem s = Some bs /\
+    sorted_rows sort_rows pk ncols rem s = Some rs /\
+    rs = map (fun b => mk_srows (b_offset b) (b_rows b)) bs.
+Proof.
+  intros Hso Hpk Hwf Hc.
+  destruct (sorter_runs ncols sort_rows run_size pk rows Hso Hpk Hwf Hc) as (s & Hs & Hperm & Hsorted).
+  assert (Hw : wf_rows ncols (concat (runs_of sort_rows pk s))).
+  { unfold wf_rows in *. rewrite Forall_forall in *. intros r Hr. apply Hwf.
+    eapply Permutation_in; eauto. }
+  destruct (outputs_agree_runs ncols pk rem _ Hw) as (bs & rs & H1 & H2 & H3).
+  exists s, bs, rs. auto.
+Qed.
+
+Theorem nopk_removed_empty ncols rem : wf_removed ncols [] rem -> rem = [].
+Proof.
+  intros [H1 H2]. destruct rem as [|c rem]; [reflexivity|]. exfalso.
+  inversion H1; subst. apply (H2 c); [now left|]. cbn. apply in_seq. lia.
+Qed.
+
+Theorem cleanup_all_histories sort_rows run_size pk ops :
+  well_used false ops ->
+  trace_clean false ops (sop_trace sort_rows run_size pk new_sorter ops).
+Proof. intros H. apply cleanup_trace; auto. reflexivity. Qed.
+
+(** * The executable in-memory sort satisfies [sort_ok] *)
+
+Lemma insert_row_perm pk r l : Permutation (insert_row pk r l) (r :: l).
+Proof.
+  induction l as [|x l IH]; cbn; [reflexivity|].
+  destruct (string_slice_is_less pk r x); [reflexivity|].
+  rewrite IH. apply perm_swap.
+Qed.
+
+Lemma isort_rows_perm pk l : Permutation (isort_rows pk l) l.
+Proof.
+  induction l as [|r l IH]; cbn; [reflexivity|].
+  fold (isort_rows pk l). rewrite insert_row_perm. now constructor.
+Qed.
+
+Lemma insert_row_sorted ncols pk r l :
+  length r = ncols -> Forall (fun x => length x = ncols) l ->
+  run_sorted pk l -> run_sorted pk (insert_row pk r l).
+Proof.
+  intros Hr Hl Hs. induction Hs as [|x l Hs IH Hx]; cbn.
+  - constructor; constructor.
+  - inversion Hl as [|? ? Hlx Hll]; subst.
+    destruct (string_slice_is_less pk r x) eqn:E.
+    + constructor; [constructor; auto|]. constructor.
+      * rewrite (ssl_dkey (length r)) in * by auto.
+        apply klt_true_lt in E. apply klt_false_le. rewrite E. discriminate.
+      * rewrite Forall_forall in *. intros y Hy. specialize (Hx y Hy).
+        rewrite (ssl_dkey (length r)) in * by (auto; apply Hll; auto).
+        apply klt_true_lt in E. apply klt_false_le in Hx. apply klt_false_le.
+        intro G. apply kcmp_gt_lt in G.
+        pose proof (kcmp_lt_le_trans _ _ _ E Hx) as L. rewrite (kcmp_antisym) in G. rewrite L in G.
+        discriminate.
+    + constructor; [apply IH; auto|].
+      rewrite Forall_forall in *. intros y Hy.
+      apply (Permutation_in _ (insert_row_perm pk r l)) in Hy. destruct Hy as [<-|Hy]; auto.
+  Qed.
+
+Theorem isort_ok ncols : sort_ok ncols isort_rows.
+Proof.
+  intros pk l _ Hwf. split; [apply isort_rows_perm|].
+  induction Hwf as [|r l Hr Hl IH]; cbn; [constructor|].
+  fold (isort_rows pk l). eapply insert_row_sorted; eauto.
+  unfold wf_rows in *. rewrite Forall_forall in *. intros x Hx. apply Hl.
+  eapply Permutation_in; [apply isort_rows_perm|exact Hx].
+Qed.
